@@ -24,6 +24,9 @@ import (
 	"time"
 
 	"github.com/0xReLogic/Helios/internal/circuitbreaker"
+	"github.com/0xReLogic/Helios/internal/config"
+	"github.com/0xReLogic/Helios/internal/loadbalancer"
+	"github.com/0xReLogic/Helios/internal/logging"
 )
 
 type cfg struct {
@@ -45,6 +48,8 @@ type script struct {
 	ID    string `json:"id"`
 	Cf    cfg    `json:"cf"`
 	Cb    bool   `json:"cb"` // install a re-entrant state-change callback (like the balancer's)
+	MR0   bool   `json:"mr0"` // leave max_requests unset (0) in the configuration: the balancer's default applies
+	Via   string `json:"via"` // "lb": breaker built by the real NewLoadBalancer from a validated config
 	Steps []step `json:"steps"`
 }
 
@@ -55,7 +60,8 @@ type caller struct {
 	outcome string
 }
 
-const tick = time.Second
+// one model tick; a bound of k ticks is configured as k ticks + half a tick
+var tick = time.Second
 
 var (
 	running *caller
@@ -83,6 +89,13 @@ func stateName(s circuitbreaker.State) string {
 
 var errFn = errors.New("fn failed")
 
+func mrCfg(sc script) int {
+	if sc.MR0 {
+		return 0
+	}
+	return sc.Cf.MR
+}
+
 func runScript(sc script) {
 	var cb *circuitbreaker.CircuitBreaker
 	set := circuitbreaker.Settings{
@@ -101,8 +114,36 @@ func runScript(sc script) {
 			_, _, _ = cb.Counts()
 		}
 	}
-	cb = circuitbreaker.NewCircuitBreaker(set)
-	emit(map[string]any{"ev": "cfg", "id": sc.ID, "cf": sc.Cf})
+	if sc.Via == "lb" {
+		// the breaker exactly as the balancer wires it (defaults, state-change callback),
+		// from a configuration the real validator accepted; whole seconds only, so a
+		// tick is 2 s and k ticks + 1/2 tick = 2k+1 s
+		tick = 2 * time.Second
+		c := &config.Config{
+			Server:       config.ServerConfig{Port: 8080},
+			Backends:     []config.BackendConfig{{Name: "b", Address: "http://127.0.0.1:1"}},
+			LoadBalancer: config.LoadBalancerConfig{Strategy: "round_robin"},
+			CircuitBreaker: config.CircuitBreakerConfig{Enabled: true, MaxRequests: mrCfg(sc),
+				IntervalSeconds: 2*sc.Cf.IV + 1, TimeoutSeconds: 2*sc.Cf.TO + 1,
+				FailureThreshold: sc.Cf.FT, SuccessThreshold: sc.Cf.ST},
+		}
+		emit(map[string]any{"ev": "cfg", "id": sc.ID, "cf": sc.Cf})
+		if err := c.Validate(); err != nil {
+			// outside the property's quantifier ("every accepted configuration")
+			emit(map[string]any{"ev": "skip", "why": "configuration rejected by Validate: " + err.Error()})
+			return
+		}
+		lb, err := loadbalancer.NewLoadBalancer(c)
+		if err != nil {
+			emit(map[string]any{"ev": "drift", "why": "NewLoadBalancer: " + err.Error(), "c": 0})
+			return
+		}
+		cb = lb.VerifBreaker()
+	} else {
+		tick = time.Second
+		cb = circuitbreaker.NewCircuitBreaker(set)
+		emit(map[string]any{"ev": "cfg", "id": sc.ID, "cf": sc.Cf})
+	}
 	callers := map[int]*caller{}
 	stuck := false
 
@@ -147,6 +188,10 @@ func runScript(sc script) {
 			time.Sleep(time.Duration(n) * tick)
 			emit(map[string]any{"ev": "tick", "n": n})
 		case "call":
+			if callers[st.C] != nil {
+				emit(map[string]any{"ev": "drift", "why": "call of a caller that is still in flight", "c": st.C})
+				continue
+			}
 			c := &caller{id: st.C, resume: make(chan struct{}), parked: make(chan string, 1), outcome: st.O}
 			callers[st.C] = c
 			running = c
@@ -190,11 +235,44 @@ func runScript(sc script) {
 				}
 			}()
 			wait(c)
+		case "recover":
+			// C08 recovery script: let the timeout elapse, then N successful sequential
+			// calls (each preceded by nothing else); report the last one
+			time.Sleep(time.Duration(sc.Cf.TO+1) * tick)
+			res := "none"
+			running = nil // gates are pass-through for the recovery calls
+			fin := make(chan struct{})
+			go func() {
+				defer close(fin)
+				for i := 0; i < st.N; i++ {
+					err := cb.Execute(func() error { return nil })
+					switch {
+					case err == nil:
+						res = "ok"
+					case err == circuitbreaker.ErrCircuitBreakerOpen:
+						res = "open"
+					case err == circuitbreaker.ErrTooManyRequests:
+						res = "many"
+					default:
+						res = "err"
+					}
+				}
+			}()
+			select {
+			case <-fin:
+			case <-time.After(2 * time.Second):
+				emit(map[string]any{"ev": "stuck", "c": 0, "at": "recover"})
+				stuck = true
+				continue
+			}
+			emit(map[string]any{"ev": "probe", "res": res, "state": stateName(cb.State()), "n": st.N})
 		case "step":
 			c := callers[st.C]
 			if c == nil {
-				emit(map[string]any{"ev": "harness_error", "msg": "step of unknown caller", "id": sc.ID})
-				return
+				// the real breaker left the model's path (e.g. it rejected a call the
+				// model admits): the scripted step has no counterpart -- DRIFT, not a verdict
+				emit(map[string]any{"ev": "drift", "why": "step of a caller that is not in flight", "c": st.C})
+				continue
 			}
 			running = c
 			c.resume <- struct{}{}
@@ -208,6 +286,7 @@ func main() {
 	// virtual clock and can hang forever; these short-lived replays run without GC
 	debug.SetGCPercent(-1)
 	runtime.GOMAXPROCS(1)
+	logging.Init(config.LoggingConfig{Level: "fatal", Format: "json"})
 	if len(os.Args) < 3 {
 		fmt.Fprintln(os.Stderr, "usage: breaker <scripts.ndjson> <trace-out.ndjson> [full]")
 		os.Exit(2)
